@@ -51,7 +51,7 @@ func analyseDecode(p *Prog) *decodeAnatomy {
 				return
 			}
 			fv := fieldVarOfAddr(st.Addr)
-			if fv == nil || fv.Name() != "skipped" {
+			if fv == nil || fv != s.skippedF {
 				return
 			}
 			if u, ok := st.Val.(*ssa.UnOp); ok && u.Op == token.MUL {
@@ -294,7 +294,7 @@ func ruleSkipOrder(p *Prog, r *RuleResult) {
 					for _, bb := range fn.Blocks {
 						if i2 := blockIf(bb); i2 != nil {
 							at, ps := condAtom(i2.Cond)
-							if fv := fieldVarOfLoad(at); fv != nil && fv.Name() == "skipped" {
+							if fv := fieldVarOfLoad(at); fv != nil && fv == a.s.skippedF {
 								if edgeDominates(fn, edge{bb, succFor(ps, true)}, add.Block()) {
 									return true
 								}
